@@ -231,6 +231,11 @@ func (this *Hnsw) Search(ctx context.Context, query math.Vector, k uint) (Search
 		return make(SearchResult, 0), nil
 	}
 
+	if uint64(k) > uint64(this.Len()) {
+		// There is nothing to gain beyond the number of stored items; buffers are sized by k
+		k = uint(this.Len())
+	}
+
 	minDistance := this.space.Distance(query, entrypoint.vector)
 	for l := entrypoint.level; l > 0; l-- {
 		entrypoint, minDistance = this.greedyClosestNeighbor(query, entrypoint, minDistance, l)
